@@ -96,6 +96,12 @@ class PolicySigner(Device):
             raise SW(0x6A89)
         self.chunks[name].append((self.requested, data))
         self.recv[name] += data
+        if not data and self.requested and self.lens[name] - len(self.recv[name]) > 0:
+            # nothing sent although the device asked for bytes it is still owed: no progress is
+            # possible from here (the firmware's parser would be fed nothing for ever)
+            self.errors.append(("empty-chunk", name, len(self.recv[name]), self.lens[name]))
+            self.phase = None
+            raise SW(0x6A87)
         return self.answer()
 
     def answer(self):
